@@ -1678,14 +1678,20 @@ def in_domain(case):
     """shrinking must not leave the representation invariant of IndexRange
     (constants live in lo/hi, never in the base)."""
     k = case.get("kind")
+
+    def nonempty(r):
+        return r[1] is None or r[2] is None or r[1] <= r[2]
+
     if k == "op":
-        if not _base_ok(case["a"][0]):
+        if not _base_ok(case["a"][0]) or not nonempty(case["a"]):
             return False
         b = case.get("b")
-        if b is not None and not is_expr(b) and not _base_ok(b[0]):
+        if b is not None and not is_expr(b) and not (_base_ok(b[0]) and nonempty(b)):
             return False
     elif k == "partial_eval":
         if not _base_ok(case["self"][0]) or not _base_ok(case["rng"][0]):
+            return False
+        if not nonempty(case["self"]) or not nonempty(case["rng"]):
             return False
         if case["self"][0] is None or case["var"] not in expr_vars(case["self"][0]):
             return False
